@@ -18,6 +18,7 @@ import NormModel.Model.Lexer
 import NormModel.Model.Reports
 import NormModel.Model.Engine
 import NormModel.Model.Limits
+import NormModel.Model.Header
 namespace Norm
 
 /-- `Highlight.from_token`: position of the token, `unsafe_length` = length of the value if any -/
@@ -48,5 +49,31 @@ def alwaysDiags (toks : List Token) (g : Segment) : List Diag :=
 /-- … and for the whole run, statement by statement -/
 def alwaysDiagsRun (toks : List Token) (trace : List Segment) : List Diag :=
   trace.flatMap (alwaysDiags toks)
+
+/-! `CheckHeader` also runs after every matched primary; what it reads of a statement is whether
+the primary was `IsComment` (`context.history[-1]`) and the first token. -/
+
+/-- the statement `g` as `CheckHeader.run` sees it -/
+def headerEventOf (toks : List Token) (g : Segment) : HEvent :=
+  ⟨g.rule == "IsComment",
+   match toks[g.start]? with
+   | some t => if t.type == "MULT_COMMENT" then t.value.map String.toList else none
+   | none => none⟩
+
+/-- the header state machine over the statements of a run -/
+def headerRunFile (srch : List Char → Bool) (toks : List Token) (trace : List Segment) : HState :=
+  headerRun srch (trace.map (headerEventOf toks))
+
+/-- the INVALID_HEADER diagnostics of a run: emitted at the first token of the statement at which
+the state machine counts an error -/
+def headerDiagsAux (srch : List Char → Bool) (toks : List Token) : List Segment → HState → List Diag
+  | [], _ => []
+  | g :: gs, st =>
+    let st' := headerStep srch st (headerEventOf toks g)
+    (if st.errors < st'.errors then (toks[g.start]?).toList.map (tokDiag "INVALID_HEADER") else []) ++
+      headerDiagsAux srch toks gs st'
+
+def headerDiagsRun (srch : List Char → Bool) (toks : List Token) (trace : List Segment) : List Diag :=
+  headerDiagsAux srch toks trace {}
 
 end Norm
